@@ -163,19 +163,20 @@ int lltd_port_send_frame(void *iface_ctx, const void *frame, size_t frame_len) {
 
 #define IFACE(ctx) ((vp_iface *)(ctx))
 
+#define VP_FAILRC (vp_glob.failrc ? vp_glob.failrc : -1)   /* what a failing getter returns: -1 like the ports of the repository, or any other non-zero code */
 int lltd_port_get_mtu(void *ctx, size_t *out) {
-    if (!ctx || !out || (IFACE(ctx)->getfail & GF_MTU)) return -1;
+    if (!ctx || !out || (IFACE(ctx)->getfail & GF_MTU)) return VP_FAILRC;
     *out = IFACE(ctx)->mtu; return 0;
 }
 int lltd_port_get_icon_image(void **out_data, size_t *out_size) {
-    if (!out_data || !out_size || !vp_glob.icon_present) return -1;
+    if (!out_data || !out_size || !vp_glob.icon_present) return VP_FAILRC;
     if (vp_glob.icon_len == 0) { *out_data = vp_glob.empty_block ? vp_raw_alloc(0) : NULL; *out_size = 0; return 0; }
     uint8_t *p = vp_raw_alloc(vp_glob.icon_len);
     memcpy(p, vp_glob.icon, vp_glob.icon_len);
     *out_data = p; *out_size = vp_glob.icon_len; return 0;
 }
 int lltd_port_get_friendly_name(void **out_data, size_t *out_size) {
-    if (!out_data || !out_size || !vp_glob.fname_present) return -1;
+    if (!out_data || !out_size || !vp_glob.fname_present) return VP_FAILRC;
     if (vp_glob.fname_len == 0) { *out_data = vp_glob.empty_block ? vp_raw_alloc(0) : NULL; *out_size = 0; return 0; }
     uint8_t *p = vp_raw_alloc(vp_glob.fname_len);
     memcpy(p, vp_glob.fname, vp_glob.fname_len);
@@ -191,37 +192,37 @@ size_t lltd_port_get_hostname(void *dst, size_t dst_len) {
     return copy_str(dst, dst_len, vp_glob.host, vp_glob.host_len, vp_glob.host_full);
 }
 size_t lltd_port_get_support_url(void *dst, size_t dst_len) { (void)dst; (void)dst_len; return 0; }
-int lltd_port_get_upnp_uuid(uint8_t out_uuid[16]) { (void)out_uuid; return -1; }
+int lltd_port_get_upnp_uuid(uint8_t out_uuid[16]) { (void)out_uuid; return VP_FAILRC; }
 size_t lltd_port_get_hw_id(void *dst, size_t dst_len) {
     return copy_str(dst, dst_len, vp_glob.hwid, vp_glob.hwid_len, 1);
 }
 int lltd_port_get_mac_address(void *ctx, ethernet_address_t *out) {
-    if (!ctx || !out || (IFACE(ctx)->getfail & GF_MAC)) return -1;
+    if (!ctx || !out || (IFACE(ctx)->getfail & GF_MAC)) return VP_FAILRC;
     memcpy(out->a, IFACE(ctx)->mac, 6); return 0;
 }
 uint32_t lltd_port_get_characteristics_flags(void *ctx) { return ctx ? IFACE(ctx)->flags : 0; }
 int lltd_port_get_if_type(void *ctx, uint32_t *out) {
-    if (!ctx || !out || (IFACE(ctx)->getfail & GF_IFTYPE)) return -1;
+    if (!ctx || !out || (IFACE(ctx)->getfail & GF_IFTYPE)) return VP_FAILRC;
     *out = IFACE(ctx)->iftype; return 0;
 }
 int lltd_port_get_ipv4_address(void *ctx, uint32_t *out) {
-    if (!ctx || !out || (IFACE(ctx)->getfail & GF_IPV4)) return -1;
+    if (!ctx || !out || (IFACE(ctx)->getfail & GF_IPV4)) return VP_FAILRC;
     memcpy(out, IFACE(ctx)->ipv4, 4); return 0;
 }
 int lltd_port_get_ipv6_address(void *ctx, uint8_t out[16]) {
-    if (!ctx || !out || (IFACE(ctx)->getfail & GF_IPV6)) return -1;
+    if (!ctx || !out || (IFACE(ctx)->getfail & GF_IPV6)) return VP_FAILRC;
     memcpy(out, IFACE(ctx)->ipv6, 16); return 0;
 }
 int lltd_port_get_link_speed_100bps(void *ctx, uint32_t *out) {
-    if (!ctx || !out || (IFACE(ctx)->getfail & GF_SPEED)) return -1;
+    if (!ctx || !out || (IFACE(ctx)->getfail & GF_SPEED)) return VP_FAILRC;
     *out = IFACE(ctx)->speed; return 0;
 }
 int lltd_port_get_wifi_mode(void *ctx, uint8_t *out) {
-    if (!ctx || !out || !IFACE(ctx)->wifi) return -1;
+    if (!ctx || !out || !IFACE(ctx)->wifi) return VP_FAILRC;
     *out = IFACE(ctx)->mode; return 0;
 }
 int lltd_port_get_bssid(void *ctx, uint8_t out[6]) {
-    if (!ctx || !out || (IFACE(ctx)->getfail & GF_BSSID)) return -1;
+    if (!ctx || !out || (IFACE(ctx)->getfail & GF_BSSID)) return VP_FAILRC;
     memcpy(out, IFACE(ctx)->bssid, 6); return 0;
 }
 size_t lltd_port_get_ssid(void *ctx, void *dst, size_t dst_len) {
@@ -229,14 +230,14 @@ size_t lltd_port_get_ssid(void *ctx, void *dst, size_t dst_len) {
     return copy_str(dst, dst_len, IFACE(ctx)->ssid, IFACE(ctx)->ssid_len, IFACE(ctx)->ssid_full);
 }
 int lltd_port_get_wifi_max_rate_0_5mbps(void *ctx, uint16_t *out) {
-    if (!ctx || !out || (IFACE(ctx)->getfail & GF_RATE)) return -1;
+    if (!ctx || !out || (IFACE(ctx)->getfail & GF_RATE)) return VP_FAILRC;
     *out = IFACE(ctx)->rate; return 0;
 }
 int lltd_port_get_wifi_rssi_dbm(void *ctx, int8_t *out) {
-    if (!ctx || !out || (IFACE(ctx)->getfail & GF_RSSI)) return -1;
+    if (!ctx || !out || (IFACE(ctx)->getfail & GF_RSSI)) return VP_FAILRC;
     *out = IFACE(ctx)->rssi; return 0;
 }
-int lltd_port_get_wifi_phy_medium(void *ctx, uint32_t *out) { (void)ctx; if (out) *out = 0; return -1; }
+int lltd_port_get_wifi_phy_medium(void *ctx, uint32_t *out) { (void)ctx; if (out) *out = 0; return VP_FAILRC; }
 
 static VP_TL unsigned long log_calls = 0;
 void lltd_port_log_debug(const char *fmt, ...) { (void)fmt; log_calls++; }
